@@ -250,6 +250,15 @@ class PointsTo:
             return {a}
         if isinstance(e, ast.Starred):
             return self.ev(f, e.value)
+        if isinstance(e, (ast.Yield, ast.YieldFrom)):
+            # a generator function returns ONE abstract iterable whose elements are everything it yields
+            a = ('gen', f.qname)
+            self.heap.setdefault(a, {})
+            if e.value is not None:
+                v = self.ev(f, e.value)
+                self.store({a}, '*', self.read(v, '*') if isinstance(e, ast.YieldFrom) else v)
+            self._add(self.ret.setdefault(f.qname, set()), {a})
+            return set()
         if isinstance(e, ast.Await):
             return self.ev(f, e.value)
         return set()
